@@ -467,6 +467,17 @@ def check_callables(handler, exp, uniq, tier, bad, acc):
             return bad("none-set-mishandled", [r, seen()], [e[0] for e in want], none_count=min(len(sub), 3),
                        all_none=len(sub) == len(uniq))
         acc.extra["none-sets"] += 1
+        # wave 6: the same set, the names that hold None supplied in UPPER case (names are matched after
+        # normalisation whatever they are mapped to)
+        if sub:
+            reset_log()
+            r = call(handler, {(nm.upper() if nm in sub else nm): (None if nm in sub else callable_of("function", nm))
+                               for nm in uniq})
+            n_maps += 1
+            if not delivered(r, want):
+                return bad("none-set-mishandled", [r, seen()], [e[0] for e in want], none_count=min(len(sub), 3),
+                           all_none=len(sub) == len(uniq), none_names="upper-case")
+            acc.extra["none-sets-upper-case"] += 1
     # f. all or nothing when the names that are mapped hold None / falsy callables / the duplicate holds None
     for miss in (uniq if tier != "quick" else sorted(set((uniq[0], uniq[-1])))):
         for k in (None, "object-bool-false", "empty-list-subclass"):
@@ -484,6 +495,16 @@ def check_callables(handler, exp, uniq, tier, bad, acc):
             if r[0] != "config-error" or LOG:
                 return bad("duplicate-name-not-all-or-nothing", [r, seen()], ["config-error", []],
                            others=k or "None")
+            if k is None:
+                # wave 6: every name holds a function and the case-variant duplicate of one name holds None
+                reset_log()
+                m = {nm: callable_of("function", nm) for nm in uniq}
+                m[miss.upper()] = None
+                r = call(handler, m)
+                n_maps += 1
+                if r[0] != "config-error" or LOG:
+                    return bad("duplicate-name-not-all-or-nothing", [r, seen()], ["config-error", []],
+                               others="functions", duplicate="None")
     # g. the kind of the mapping object and the order of its items
     for mk, make in map_kinds():
         reset_log()
